@@ -193,6 +193,25 @@ static bool sameGM(const GaussianMixture& a, const GaussianMixture& b) {
 }
 static bool samePS(const ParticleSet& a, const ParticleSet& b) { return sameGM(a, b) && vh::same_bits(a.state(), b.state()); }
 
+// A step that claims to be the identity must be so whatever the output container held before the call (a filter
+// re-uses its buffers): besides poison, the output is pre-filled with partial copies of the input -- same mean but
+// other covariances / weights, same covariances but other means, everything but the weights, (particle sets)
+// same positions and weights but other Gaussians, and an exact copy with one weight / one covariance entry changed.
+static const char* STALE_MODES[] = {"mean-equal", "cov-equal", "all-but-weights", "all-but-one-cov-entry", "state-weights-equal", "all-but-one-state-entry"};
+static void prefillGM(GaussianMixture& out, const GaussianMixture& in, int mode) {
+    out = in;
+    if (mode == 0) { out.covariance().setConstant(-54321.0); out.weight().setConstant(777.0); }
+    else if (mode == 1) { out.mean().setConstant(12345.0); out.weight().setConstant(777.0); }
+    else if (mode == 2) { out.weight().setConstant(777.0); }
+    else if (mode == 3) { out.covariance()(out.covariance().rows() - 1, out.covariance().cols() - 1) += 0.5; }
+}
+static void prefillPS(ParticleSet& out, const ParticleSet& in, int mode) {
+    out = in;
+    if (mode <= 3) { prefillGM(out, in, mode); if (mode == 1) out.state().setConstant(999.0); }
+    else if (mode == 4) { out.mean().setConstant(12345.0); out.covariance().setConstant(-54321.0); }
+    else if (mode == 5) { out.state()(out.state().rows() - 1, out.state().cols() - 1) += 0.5; }
+}
+
 static std::string pick(const std::vector<std::pair<std::string, bool>>& hits) {
     std::string lab; int n = 0;
     for (auto& h : hits) if (h.second) { if (n == 0) lab = h.first; ++n; }
@@ -225,6 +244,12 @@ struct GaussCase {
         bool in_same = sameGM(in, cur);
         twin_fx->predict(in, r1); twin_fxexo->predict(in, r2);
         std::string lab = pick({{"id", sameGM(out, in)}, {"fx", sameGM(out, r1)}, {"fxexo", sameGM(out, r2)}});
+        if (sameGM(out, in))
+            for (int mode = 0; mode < 4; ++mode) {
+                GaussianMixture o2(cur.components, cur.dim); prefillGM(o2, in, mode);
+                fp->prediction().predict(cur, o2);
+                if (!sameGM(o2, in)) { lab = std::string("stale-output:") + STALE_MODES[mode]; break; }
+            }
         if (!in_same) lab += "+input-modified";
         if (advance) cur = out;
         return lab;
@@ -236,6 +261,12 @@ struct GaussCase {
         bool in_same = sameGM(in, cur);
         twin_c->correct(in, r1);
         std::string lab = pick({{"id", sameGM(out, in)}, {"full", sameGM(out, r1)}});
+        if (sameGM(out, in))
+            for (int mode = 0; mode < 4; ++mode) {
+                GaussianMixture o2(cur.components, cur.dim); prefillGM(o2, in, mode);
+                fp->correction().correct(cur, o2);
+                if (!sameGM(o2, in)) { lab = std::string("stale-output:") + STALE_MODES[mode]; break; }
+            }
         if (!in_same) lab += "+input-modified";
         if (advance) cur = out;
         return lab;
@@ -291,6 +322,12 @@ struct PartCase {
             hits.push_back({"exo", samePS(out, e)}); hits.push_back({"copy", samePS(out, c)}); hits.push_back({"untouched", samePS(out, u)});
         }
         std::string lab = pick(hits);
+        if (samePS(out, in))
+            for (int mode = 0; mode < 6; ++mode) {
+                ParticleSet o2(k, n); prefillPS(o2, in, mode);
+                fp->prediction().predict(cur, o2);
+                if (!samePS(o2, in)) { lab = std::string("stale-output:") + STALE_MODES[mode]; break; }
+            }
         if (!in_same) lab += "+input-modified";
         if (advance) {
             if ((pk == "draw" || pk == "draw2") && lab != "id") { out.mean() = cur.mean(); out.covariance() = cur.covariance(); }   // fields DrawParticles does not write
@@ -305,7 +342,15 @@ struct PartCase {
         fp->correction().correct(cur, out);
         bool in_same = samePS(in, cur);
         std::string lab;
-        if (samePS(out, in)) lab = "id";       // the twin is run only when the step under test ran, so that
+        if (samePS(out, in)) {
+            lab = "id";
+            // a skipped correction draws no random numbers: the extra calls keep the generators in step
+            for (int mode = 0; mode < 6; ++mode) {
+                ParticleSet o2(k, n); prefillPS(o2, in, mode);
+                fp->correction().correct(cur, o2);
+                if (!samePS(o2, in)) { lab = std::string("stale-output:") + STALE_MODES[mode]; break; }
+            }
+        }                                       // the twin is run only when the step under test ran, so that
         else {                                  // both random generators (GPFCorrection) have consumed the same draws
             twin_c->correct(in, r1);
             lab = samePS(out, r1) ? "full" : "other";
